@@ -18,6 +18,7 @@ func TestMain(m *testing.M) {
 		{Test: "TestMontgomery", Quick: 4, Thorough: 16},
 		{Test: "TestNTTProducts", Quick: 8, Thorough: 16},
 		{Test: "TestChkNorm", Quick: 2, Thorough: 8},
+		{Test: "TestColdStart", Quick: 8, Thorough: 8},
 	})
 }
 
